@@ -148,7 +148,7 @@ def run(ctx):
     small = [r for r in rows if r["id"] not in skipped and r["vec"]["cmd"] in pipetrace.TOPO and r["vec"]["N"] <= 6 and not r["obs"].get("timeout") and not r["obs"].get("panic")]
     rejected = pipetrace.validate_traces(ctx, small)
     for r, why in rejected:
-        ctx.add_failure("trace-rejected", r["vec"]["sig"], r["id"], {"vec": r["vec"], "why": why, "observed": r["obs"]})
+        ctx.add_failure("trace-rejected", r["vec"]["sig"], r["id"], {"vec": r["vec"], "why": why, "observed": r["obs"], "family": "pipe"})
     # (1b) the pipeline runs performed by the repository's own tests, as traces (their assertions only compare outputs)
     for r, why in repotests.validate(ctx):
         ctx.add_failure("trace-rejected", "repository-test:" + r["vec"]["cmd"], r["id"], {"vec": r["vec"], "why": why, "events": r["obs"]["events"][:60]})
